@@ -252,6 +252,38 @@ def run_lines(binary, lines, args=("lines",), timeout=900, env=None):
     return [x for o in outs for x in o]
 
 
+def run_lines_hang_aware(binary, lines, hang_output, args=("lines",), chunk_timeout=120, case_timeout=10, env=None):
+    """run_lines for operations that must return promptly: when a chunk does not finish within
+    chunk_timeout the cases of that chunk are run one at a time; a case that does not return within
+    case_timeout yields hang_output instead of aborting the check."""
+    size = 250
+    chunks = [lines[i:i + size] for i in range(0, len(lines), size)]
+
+    def one(ch):
+        try:
+            return _run_chunk(binary, ch, args, chunk_timeout, env)
+        except CheckError as e:
+            if "exited 124" not in str(e):
+                raise
+        except subprocess.TimeoutExpired:
+            pass
+        out = []
+        for ln in ch:
+            try:
+                out.append(_run_chunk(binary, [ln], args, case_timeout, env)[0])
+            except CheckError as e:
+                if "exited 124" not in str(e):
+                    raise
+                out.append(hang_output)
+            except subprocess.TimeoutExpired:
+                out.append(hang_output)
+        return out
+    from concurrent.futures import ThreadPoolExecutor
+    with ThreadPoolExecutor(max_workers=8) as ex:
+        outs = list(ex.map(one, chunks))
+    return [x for o in outs for x in o]
+
+
 def run_model(lines, timeout=900):
     return run_lines(os.path.join(OCAML, "model_driver"), lines, args=(), timeout=timeout)
 
